@@ -328,6 +328,21 @@ func neuralSweep(thorough bool) []source {
 		jb, _ := json.Marshal(map[string]any{"Nodes": nodes, "Weights": weights})
 		out = append(out, source{"neuralbond", "layer-width", string(jb), nil, false, nil, nil, [3]int{}})
 		out = append(out, source{"neuralbond", "layer-width", string(jb), []string{"-chooser-min-word-size"}, false, nil, nil, [3]int{}})
+		// pruned nets: every non-empty subset of the fan-in of the first hidden neuron (holes in the set of previous-
+		// layer positions feeding a neuron), the other neurons fully connected
+		if sz[0] >= 3 && sz[0] <= 4 {
+			for mask := 1; mask < 1<<sz[0]-1; mask++ {
+				var pruned []map[string]any
+				for _, w := range weights {
+					if w["Layer"].(int) == 1 && w["PosCurrLayer"].(int) == 0 && mask>>w["PosPrevLayer"].(int)&1 == 0 {
+						continue
+					}
+					pruned = append(pruned, w)
+				}
+				jb, _ := json.Marshal(map[string]any{"Nodes": nodes, "Weights": pruned})
+				out = append(out, source{"neuralbond", "pruned-fan-in", string(jb), nil, false, nil, nil, [3]int{}})
+			}
+		}
 	}
 	return out
 }
@@ -565,6 +580,23 @@ func evaluate(s source) verdict {
 		for _, a := range s.RamAddrs {
 			if a >= 1<<bm.Domains[0].L {
 				v.fails = append(v.fails, wfFail{"address-beyond-the-memory-accepted", fmt.Sprintf("the source accesses RAM cell %d, the emitted machine has %d RAM cells (L=%d)", a, 1<<bm.Domains[0].L, bm.Domains[0].L)})
+			}
+		}
+	}
+	if s.FrontEnd == "neuralbond" && bm != nil {
+		// the generator creates exactly the ports its links need: a processor input nobody drives or a processor
+		// output nobody reads means a link of the net was lost on the way
+		driven := map[int]bool{}
+		for i, l := range bm.Links {
+			if l >= 0 {
+				driven[l] = true
+			} else if i < len(bm.Internal_inputs) && bm.Internal_inputs[i].Map_to == bondmachine.CPINPUT {
+				v.fails = append(v.fails, wfFail{"dangling-endpoint", "processor input " + bm.Internal_inputs[i].String() + " is not driven by anything"})
+			}
+		}
+		for o, e := range bm.Internal_outputs {
+			if e.Map_to == bondmachine.CPOUTPUT && !driven[o] {
+				v.fails = append(v.fails, wfFail{"dangling-endpoint", "processor output " + e.String() + " drives nothing"})
 			}
 		}
 	}
